@@ -106,6 +106,11 @@ def _leaves():
     add("KDRandomSolarize", lambda: kdt.KDRandomSolarize(p=0.5, threshold=128), "P", True)
     add("KDSolarize(int)", lambda: kdt.KDSolarize(threshold=100), "P", True)
     add("KDSolarize(float)", lambda: kdt.KDSolarize(threshold=0.4), "T", True)
+    add("KDRandomGrayscale(tensor)", lambda: kdt.KDRandomGrayscale(p=0.5), "T", True)
+    add("KDRandomSolarize(tensor)", lambda: kdt.KDRandomSolarize(p=0.5, threshold=0.5), "T", True)
+    add("KDGaussianBlurPIL(tensor input)", lambda: kdt.KDGaussianBlurPIL(sigma=(0.1, 2.0)), "T")
+    add("KDRandomErasing(PIL->tensor)", lambda: kdt.KDComposeTransform([kdt.KDRandomResizedCrop(size=16), __import__("torchvision").transforms.ToTensor(),
+                                                                       kdt.KDRandomErasing(p=0.9, mode="pixelwise")]), "P")
     add("KDRandomCrop", lambda: kdt.KDRandomCrop(size=8, padding=2), "T")
     add("KDRandomCrop(PIL)", lambda: kdt.KDRandomCrop(size=8), "P")
     add("KDTwoRandomCrop", lambda: KDTwoRandomCrop(size=8, overlap_min=0.1, overlap_max=0.9), "T")
